@@ -488,8 +488,8 @@ func ruleR1_10(w *World, r *Report) {
 						}
 					}
 				}
-				if !isSolverMethod && !takesClause {
-					continue
+				if !isSolverMethod && !takesClause && depth > 1 {
+					continue // (a function the analyser itself calls is part of the analysis whatever it is handed)
 				}
 				fns = append(fns, c)
 				if depth < 2 {
